@@ -157,7 +157,7 @@ func (f *Frame) prescan() {
 					walk(a, x, path+"[]")
 				}
 			case *ssa.UnOp, *ssa.Slice, *ssa.DebugRef:
-			case *ssa.Return:
+			case *ssa.Return, *ssa.MakeInterface:
 			default:
 				f.escaped[a] = true
 			}
@@ -1094,7 +1094,19 @@ func (f *Frame) sliceOf(v ssa.Value) (ASlice, bool) {
 		}
 		// pointer to an array-typed field
 		if s.obj != nil && s.typ != nil {
-			if _, isArr := s.typ.Underlying().(*types.Array); isArr {
+			if arr, isArr := s.typ.Underlying().(*types.Array); isArr {
+				if !s.obj.symbolic && !s.obj.escaped && len(s.obj.stores[s.path]) == 0 && !f.hasPrefixStores(s.obj, s.path) {
+					// element-wise initialised array field of a local object
+					if s.obj.arrFields == nil {
+						s.obj.arrFields = map[string]*Root{}
+					}
+					rt := s.obj.arrFields[s.path]
+					if rt == nil {
+						rt = &Root{key: s.obj.key + s.path, fresh: true, ln: affConst(arr.Len())}
+						s.obj.arrFields[s.path] = rt
+					}
+					return ASlice{root: rt, off: Aff{}, ln: affConst(arr.Len()), elem: arr.Elem()}, true
+				}
 				if as, ok := f.loadPath(s.obj, s.path, s.typ, f.curInstr).(ASlice); ok {
 					return as, true
 				}
@@ -1294,6 +1306,11 @@ func (f *Frame) loadPath(o *Obj, path string, t types.Type, at ssa.Instruction) 
 				return v
 			}
 			return f.an.u.symbolic(f.key+fmt.Sprintf("multi:%s%s@%s", o.key, path, valueName(at)), t)
+		}
+	}
+	if arr, ok := t.Underlying().(*types.Array); ok {
+		if rt := o.arrFields[path]; rt != nil {
+			return ASlice{root: rt, off: Aff{}, ln: affConst(arr.Len()), elem: arr.Elem()}
 		}
 	}
 	// assemble struct from sub-paths
